@@ -172,7 +172,8 @@ def scen_ensure(target, ncallers, delays, durs, fails, awkind, api, prio_idx, p1
             # the known mechanism: the other caller borrowed the idle target and finished, the target stopped with it,
             # and the pending caller's awaitable (scheduled onto the then-running target) was never run to completion
             both_idle_target = target == 'idle' and ncallers == 2 and not t_running_at_end and \
-                all(out.get(j, ('', None))[0] in ('ok', 'exc') for j in range(ncallers) if j not in pend)
+                all(out.get(j, ('', None))[0] in ('ok', 'exc') for j in range(ncallers) if j not in pend) and \
+                not any(nm.startswith('worker') for nm, _ in alive)     # no pool thread is stuck (e.g. on the per-loop lock)
             devs.append('ensure_aw-never-completes:second-caller-on-loop-run-by-first-caller' if both_idle_target and len(pend) == 1
                         else 'ensure_aw-never-completes')
         else:
@@ -240,6 +241,45 @@ def scen_two_starters(prio_idx, p1, q1):
     return devs
 
 
+def scen_stop_while_busy(block, d, prio_idx, p1):
+    """stop() is called while the loop thread is stuck in a synchronous step of `block` ticks: it returns only once the loop stopped"""
+    global LAST_INFO
+    _reset()
+    W = vt.World(prio=vt.permutation(2, pick(prio_idx, 2)), preempts=[(p1, 0)], max_steps=3000, trace=not tracing())
+    T = simloop.SimLoop('T', W)
+    box = {}
+
+    async def blocker():
+        box['blocked_from'] = W.now
+        await vt.Tok('sleep', W.now + block)     # a token inside a task step suspends the whole loop thread: a synchronous blocking step
+        box['blocked_until'] = W.now
+
+    async def starter():
+        stop = await vt.call(M.loop_in_thread, T)
+        T.call_soon_threadsafe(lambda: T.create_task(blocker()))
+        await vt.Tok('sleep', W.now + d)
+        await vt.call(stop)
+        box['running_after_stop'] = T.is_running()
+        box['stop_returned_at'] = W.now
+    W.spawn('S', starter())
+    r = W.run()
+    W.abandon_all()
+    simloop.close_leftovers([T])
+    devs = []
+    if r != 'done':
+        devs.append('stop-never-returns' if r == 'deadlock' else 'schedule-does-not-terminate')
+    elif box.get('running_after_stop') is not False:
+        devs.append('stop-returned-before-loop-stopped')
+    for t in W.threads:
+        if t.exc is not None:
+            devs.append('thread-raised:' + type(t.exc).__name__)
+    if T.double_run:
+        devs.append('loop-run-by-two-threads-at-once')
+    if not tracing():
+        LAST_INFO = {'block': block, 'd': d, 'result': r, 'box': box, 'threads': [(t.name, t.done, t.status.kind, repr(t.exc)) for t in W.threads]}
+    return devs
+
+
 def twin(p1):
     """Reachability: ensure_aw borrowed an idle loop through the pool and was pre-empted while doing so."""
     d = scen_ensure(0, 1, [0, 0], [2, 0], [False, False], 0, 0, 0, p1)
@@ -287,6 +327,14 @@ def cells(prop, tier):
                                         tier='thorough', timeout=6000, family='ensure', weight=5))
     if tier != 'thorough':
         out = [c for c in out if c.tier == 'quick']
+    out.append(Cell(name='c17_stop_while_busy', sig='block: int, d: int, prio_idx: int, p1: int',
+                    pre=['1 <= block <= 12 and 0 <= d <= 8 and 0 <= prio_idx <= 1 and 0 <= p1 <= 60'],
+                    body='H.scen_stop_while_busy(block, d, prio_idx, p1)', tier=q, timeout=600, family='loop_in_thread', weight=2))
+    # the target is borrowed twice, one caller after the other (the first awaitable may fail)
+    for ak in (0, 1):
+        out.append(Cell(name='c17_idle_sequential_%s' % AWKIND[ak], sig='fails: List[bool], prio_idx: int, p1: int',
+                        pre=['len(fails) == 2 and 0 <= prio_idx <= 1 and 0 <= p1 <= 130'],
+                        body='H.scen_ensure(0, 2, [0, 4], [1, 1], fails, %d, False, prio_idx, p1)' % ak, tier=q, timeout=900, family='ensure', weight=4))
     out.append(Cell(name='c17_two_starters', sig='prio_idx: int, p1: int, q1: int', pre=['0 <= prio_idx <= 1 and 0 <= p1 <= 80 and 0 <= q1 <= 2'],
                     body='H.scen_two_starters(prio_idx, p1, q1)', tier=q, timeout=600, family='loop_in_thread', weight=2))
     out.append(Cell(name='twin_c17', sig='p1: int', pre=['0 <= p1 <= 40'], body='H.twin(p1)', expect='refute', timeout=200, family='ensure'))
